@@ -910,6 +910,9 @@ func (f *frame) loopMods(li *loopInfo) ([]*ssa.Alloc, []string) {
 		env := &Env{g: g, st: st, old: g.entry, vars: vars, pc: "false", hyp: true}
 		for _, a := range asg {
 			l := env.locOf(a)
+			if l.skip {
+				continue // a location reached through a nil actual: the callee assigns nothing there
+			}
 			ref := l.ref
 			if l.all || !strings.HasPrefix(g.heapSort(l.heap), "(Array") {
 				ref = ""
